@@ -29,8 +29,9 @@ type driver struct {
 	exe     string
 	scratch string
 
-	mu      sync.Mutex
-	results []*shardResult
+	mu       sync.Mutex
+	progress map[[2]int]int // (lo,hi) of a failed child -> unit it was running
+	results  []*shardResult
 	crashes []*Violation
 	incon   map[string]int64
 }
@@ -89,6 +90,7 @@ func (d *driver) runChild(kind string, lo, hi int, timeout time.Duration) (res *
 	hung = ctx.Err() != nil
 	defer os.Remove(out)
 	defer os.Remove(errf)
+	defer os.Remove(out + ".progress")
 	if err == nil && !hung {
 		if b, rerr := os.ReadFile(out); rerr == nil {
 			var r shardResult
@@ -103,6 +105,21 @@ func (d *driver) runChild(kind string, lo, hi int, timeout time.Duration) (res *
 			os.Remove(l)
 		}
 	}
+	if pb, perr := os.ReadFile(out + ".progress"); perr == nil {
+		var u int
+		if _, serr := fmt.Sscanf(string(pb), "%d", &u); serr == nil {
+			d.mu.Lock()
+			if d.progress == nil {
+				d.progress = map[[2]int]int{}
+			}
+			d.progress[[2]int{lo, hi}] = u
+			d.mu.Unlock()
+		}
+		if len(pb) > 5 && string(pb[len(pb)-4:]) == "hung" {
+			hung = true
+		}
+	}
+	os.Remove(out + ".progress")
 	if b, rerr := os.ReadFile(errf); rerr == nil {
 		if len(b) > 6000 {
 			b = append(append([]byte{}, b[:3000]...), append([]byte("\n…\n"), b[len(b)-2500:]...)...)
@@ -121,6 +138,18 @@ func (d *driver) handle(j job, push func(job)) {
 		return
 	}
 	if j.hi-j.lo > 1 {
+		// the worker recorded which unit it was running: split around that unit
+		if u, ok := d.takeProgress(j.lo, j.hi); ok {
+			t := j.timeout
+			if u > j.lo {
+				push(job{j.lo, u, t, j.depth + 1, j.kind})
+			}
+			push(job{u, u + 1, t, j.depth + 1, j.kind})
+			if u+1 < j.hi {
+				push(job{u + 1, j.hi, t, j.depth + 1, j.kind})
+			}
+			return
+		}
 		mid := (j.lo + j.hi) / 2
 		t := j.timeout
 		if hung && t > 40*time.Second {
@@ -130,8 +159,18 @@ func (d *driver) handle(j job, push func(job)) {
 		push(job{mid, j.hi, t, j.depth + 1, j.kind})
 		return
 	}
-	// single unit: confirm twice in fresh processes
-	unitTimeout := time.Duration(envInt("VERIF_UNIT_TIMEOUT_S", 60)) * time.Second
+	// single unit: confirm twice in fresh processes (at most 3 culprits are isolated per run:
+	// more of them add nothing to the verdict and every hang costs real time)
+	d.mu.Lock()
+	tooMany := len(d.crashes) >= 3
+	if tooMany {
+		d.incon[fmt.Sprintf("further failing units were not isolated after 3 confirmed crashes/hangs (hung=%v)", hung)]++
+	}
+	d.mu.Unlock()
+	if tooMany {
+		return
+	}
+	unitTimeout := time.Duration(envInt("VERIF_UNIT_TIMEOUT_S", 30)) * time.Second
 	if j.timeout > unitTimeout && !hung {
 		unitTimeout = j.timeout
 	}
@@ -196,6 +235,17 @@ func (d *driver) collectRaces(r *shardResult, raceLog string, lo, hi int) {
 			Expected: "no data race", Observed: "data race", What: "race detector report: " + sig,
 			Seed: d.seed, Tier: d.tier, Unit: lo, Extra: trunc(rep, 6000)})
 	}
+}
+
+func (d *driver) takeProgress(lo, hi int) (int, bool) {
+	d.mu.Lock()
+	defer d.mu.Unlock()
+	u, ok := d.progress[[2]int{lo, hi}]
+	delete(d.progress, [2]int{lo, hi})
+	if !ok || u < lo || u >= hi {
+		return 0, false
+	}
+	return u, true
 }
 
 // Drive runs the whole check and returns the process exit code.
